@@ -242,57 +242,64 @@ def rand_epoch(rng, lo=U_MIN, hi=U_MAX):
     return min(max(day * US_DAY + tod, lo), hi)
 
 
-def make_input(rng, fmt, scale, us_list, year_len):
-    """Input values in format `fmt` denoting (about) the epochs `us_list`.
-    Returns (kind, vals, vals2 | None): `kind` describes how the numbers were formed."""
-    n = len(us_list)
+KINDS = dict(datetime=["one", "two-part"], jd=["one", "day+frac", "noon+frac", "float+rest", "arbitrary"],
+             mjd=["one", "day+frac", "noon+frac", "float+rest", "arbitrary"], gps_ws=["two-part", "weeksec"],
+             decimalyear=["random", "epoch"])
+
+
+def make_input(rng, fmt, kind, us_list):
+    """Input values in format `fmt` denoting (about) the epochs `us_list`, formed in the way `kind` says.
+    Returns (vals, vals2 | None)."""
     jds = [jd_exact(u) for u in us_list]
     if fmt == "datetime":
-        if rng.random() < 0.25:
-            dus = [rng.choice([0, 1, 5 * 10 ** 6, 86399999999, rng.randrange(US_DAY)]) for _ in us_list]
-            return "two-part", [dt_of(u - du) for u, du in zip(us_list, dus)], [timedelta(microseconds=du) for du in dus]
-        return "one", [dt_of(u) for u in us_list], None
+        if kind == "two-part":
+            dus = [rng.choice([1, 5 * 10 ** 6, 86399999999, rng.randrange(1, US_DAY)]) for _ in us_list]
+            return [dt_of(u - du) for u, du in zip(us_list, dus)], [timedelta(microseconds=du) for du in dus]
+        return [dt_of(u) for u in us_list], None
     if fmt in TEXT:
-        return "one", [text_of(fmt, dt_of(u)) for u in us_list], None
+        return [text_of(fmt, dt_of(u)) for u in us_list], None
     if fmt in ("jd", "mjd"):
         off = Fraction(0) if fmt == "jd" else Fraction(4800001, 2)
-        k = rng.choice(["one", "day+frac", "noon+frac", "float+rest", "arbitrary"])
         vals, vals2 = [], []
         for j in jds:
             x = j - off
-            if k == "one":
+            if kind == "one":
                 vals.append(float(x)); vals2 = None
-            elif k == "day+frac":
+            elif kind == "day+frac":
                 base = Fraction((x - Fraction(1, 2)).__floor__()) + Fraction(1, 2) if fmt == "jd" else Fraction(x.__floor__())
                 vals.append(float(base)); vals2.append(float(x - base))
-            elif k == "noon+frac":
+            elif kind == "noon+frac":
                 base = Fraction(x.__floor__()) if fmt == "jd" else Fraction((x - Fraction(1, 2)).__floor__()) + Fraction(1, 2)
                 vals.append(float(base)); vals2.append(float(x - base))
-            elif k == "float+rest":
+            elif kind == "float+rest":
                 a = float(x); vals.append(a); vals2.append(float(x - Fraction(a)))
             else:
                 a = float(x) + rng.choice([-1.0, 0.25, 0.75, 3.0]) * rng.random(); vals.append(a); vals2.append(float(x - Fraction(a)))
-        return k, vals, vals2
+        return vals, vals2
     if fmt == "gps_ws":
         vals, vals2 = [], []
         for j in jds:
             d = j - JD1980
             w = (d / 7).__floor__()
-            vals.append(float(w)); vals2.append(float((d - 7 * w) * 86400))
-        return "two-part", vals, vals2
+            sec = float((d - 7 * w) * 86400)
+            if kind == "weeksec":
+                vals.append((float(w), sec, float(int(sec // 86400))))
+            else:
+                vals.append(float(w)); vals2.append(sec)
+        return vals, (vals2 if kind != "weeksec" else None)
     if fmt == "gps_seconds":
-        return "one", [float((j - JD1980) * 86400) for j in jds], None
+        return [float((j - JD1980) * 86400) for j in jds], None
     if fmt == "jyear":
-        return "one", [float(2000 + (j - Fraction(2451545)) / Fraction(1461, 4)) for j in jds], None
+        return [float(2000 + (j - Fraction(2451545)) / Fraction(1461, 4)) for j in jds], None
     if fmt == "decimalyear":
-        if rng.random() < 0.5:
-            return "one", [float(dt_of(u).year + rng.random()) for u in us_list], None
+        if kind == "random":
+            return [float(dt_of(u).year + rng.random()) for u in us_list], None
         out = []
         for u in us_list:
             d = dt_of(u)
             start = us_of(datetime(d.year, 1, 1))
             out.append(float(d.year + Fraction(u - start, US_DAY) / 366))
-        return "one", out, None
+        return out, None
     raise ValueError(fmt)
 
 
@@ -362,7 +369,7 @@ def run(ctx):
                       what="the set of registered time formats differs from the 13 formats of the property")
     scales = [s for s in Time.SCALES if s in COQ_SCALE]
 
-    n_batches = 110 if ctx.quick() else 1400
+    n_batches = 120 if ctx.quick() else 1500
     casesA, metaA = [], []      # to_jds
     casesB, metaB = [], []      # from_jds
     casesC, metaC = [], []      # split
@@ -378,10 +385,15 @@ def run(ctx):
     def how(fmt, scale, shape, val, val2=None):
         return (f"Time({val!r}, " + (f"val2={val2!r}, " if val2 is not None else "") + f"scale={scale!r}, fmt={fmt!r})   [{shape}]")
 
+    combos = [(f, k) for f in formats for k in KINDS.get(f, ["one"])]
     for b in range(n_batches):
-        scale = scales[b % len(scales)] if b < 4 * len(scales) else rng.choice(scales)
+        f_in, kind = combos[b % len(combos)]
+        scale = scales[(b // len(combos) + b) % len(scales)]
+        if f_in in GPS_ONLY:
+            if "gps" not in scales:
+                continue
+            scale = "gps"
         valid = [f for f in formats if scale == "gps" or f not in GPS_ONLY]
-        f_in = valid[b % len(valid)] if b < 3 * len(valid) else rng.choice(valid)
         n = rng.choice([1, 2, 3, 4, 6])
         lo = U_GPS0 if (scale == "gps" and (f_in in GPS_ONLY or rng.random() < 0.7)) else U_MIN
         us_list = []
@@ -397,7 +409,7 @@ def run(ctx):
                 us_list.append(u)
             else:
                 us_list.append(rand_epoch(rng, lo))
-        kind, vals, vals2 = make_input(rng, f_in, scale, us_list, None)
+        vals, vals2 = make_input(rng, f_in, kind, us_list)
         shape_n = rng.choice(["list", "array"]) if f_in != "jyear" else "array"
         ctx.count(f"in:{f_in}:{kind}")
         ctx.count(f"scale:{scale}")
@@ -469,8 +481,10 @@ def run(ctx):
                 casesA.append(emit.pair(COQ_SCALE[scale], COQ_FMT[f_out], value_term(f_out, outs[i]), emit.dy(k1[i]), emit.dy(k2[i])))
                 metaA.append(dict(rep, kind="to_jds(read-back value)"))
                 ctx.case(("A2", scale, f_out, repr(outs[i])), nontrivial=True)
-                yr = dt_of(int((T_exact[i] - JD2000) * US_DAY)).year if -40000 * US_DAY < (T_exact[i] - JD2000) * US_DAY < 40000 * US_DAY else 0
-                if f_out == "yydddsssss" and not (1969 <= yr <= 2068):
+                uq = (T_exact[i] - JD2000) * US_DAY
+                in_window = (-40000 * US_DAY < uq < 40000 * US_DAY and
+                             1969 <= dt_of(uq.__floor__()).year <= 2068 and 1969 <= dt_of(uq.__floor__() + 1).year <= 2068)
+                if f_out == "yydddsssss" and not in_window:
                     ctx.count("yy-outside-pivot-window(no round trip claimed)")
                     continue
                 casesD.append(emit.pair(COQ_FMT[f_out], emit.dy(ob.jd1[i]), emit.dy(ob.jd2[i]), emit.dy(k1[i]), emit.dy(k2[i])))
@@ -504,7 +518,9 @@ def run(ctx):
                 strs_equal = True
                 for f_out in valid:
                     if f_out in ob.err or f_out in os_.err:
-                        if (f_out in ob.err) != (f_out in os_.err):
+                        # a batch with one epoch before 1980 refuses the gps formats as a whole: not a shape difference
+                        gps_refusal = f_out in GPS_ONLY and any(T < JD1980 for T in T_exact)
+                        if (f_out in ob.err) != (f_out in os_.err) and not gps_refusal:
                             strs_equal = False
                         continue
                     x, y = ob.fmt[f_out][i], os_.fmt[f_out][0]
@@ -519,7 +535,8 @@ def run(ctx):
                            observed_this=[float(x).hex() for x in bb], observed_other=[float(x).hex() for x in a],
                            how=how(f_in, scale, shape, vals[i] if shape == "scalar" else [vals[i]], (v2[0] if shape == "scalar" else v2) if v2 else None))
                 if not strs_equal:
-                    direct.append((None, f"text/datetime accessors differ between the {shape} and the {shape_n} form", rep))
+                    fid = "c02_scalar_datetime_val2_twice" if (f_in == "datetime" and shape == "scalar" and vals2) else None
+                    direct.append((fid, f"text/datetime accessors differ between the {shape} and the {shape_n} form", rep))
                 casesE.append(emit.pair(emit.lst(emit.dy(x) for x in a), emit.lst(emit.dy(x) for x in bb)))
                 metaE.append(rep)
                 ctx.case(("E", scale, f_in, shape, repr(vals[i])), nontrivial=True)
@@ -619,7 +636,8 @@ def run(ctx):
     for fid, what, rep in direct:
         if fid:
             known_what = {"c02_scalar_yds_raises": "scalar (string) input of yydddsssss / yyyydddsssss raises: TimeYyDddSssss._to_jds iterates over the characters and its scalar branch lacks `return`",
-                          "c02_jyear_list_raises": "list input of format jyear raises TypeError (list - int); ndarray and scalar work"}[fid]
+                          "c02_jyear_list_raises": "list input of format jyear raises TypeError (list - int); ndarray and scalar work",
+                          "c02_scalar_datetime_val2_twice": "scalar Time(datetime, val2=timedelta, fmt='datetime') adds val2 twice (the list form adds it once)"}[fid]
             ctx.finding(fid, known_what, rep)
         else:
             ctx.violation(rep, what=what)
